@@ -3,6 +3,7 @@ import HappyModel.C20.Spec
 import HappyModel.C20.TopK
 import HappyModel.C20.Reservoir
 import HappyModel.C20.Merkle
+import HappyModel.C20.MerkleState
 /-!
 Model modes of the C20 driver: parse a block, run the model, print the canonical transcript
 (`hv/props/c20.py` prints the same lines from the real objects).
@@ -188,26 +189,31 @@ def showRanges (rs : List (Nat × Nat)) : String :=
 
 def sortKV (m : List (Nat × Nat)) : List (Nat × Nat) := m.mergeSort (fun a b => decide (a.1 ≤ b.1))
 
-def runMerkle (body : List String) : List String :=
+/-- `pyeq v c v c …` as a function (identity where the table is silent) -/
+def clsOf (body : List String) : Nat → Nat :=
+  let tbl := pairsOf (nats (firstWith "pyeq" body))
+  fun v => match tbl.find? (·.1 == v) with
+    | some p => p.2
+    | none => v
+
+/-- the two stateful trees (`MerkleState.lean`); variant `repaired` stores canonical forms -/
+def runMerkle (variant : String) (body : List String) : List String :=
   let hl := (PTable.parse "hl" body).fn
   let hc := (PTable.parse "hc" body).fn
-  let a0 := sortKV (pairsOf (nats (firstWith "a" body)))
-  let b0 := sortKV (pairsOf (nats (firstWith "b" body)))
-  let rec go (a b : List (Nat × Nat)) : List String → List String
+  let canon : Nat → Nat := if variant == "repaired" then clsOf body else id
+  let a0 := MT.ofList (mapVals canon (pairsOf (nats (firstWith "a" body))))
+  let b0 := MT.ofList (mapVals canon (pairsOf (nats (firstWith "b" body))))
+  let rec go (a b : MT) : List String → List String
     | [] => []
     | l :: ls =>
       match toks l with
-      | ["upd", "a", k, v] => go (mapPut a (natD k) (natD v)) b ls
-      | ["upd", "b", k, v] => go a (mapPut b (natD k) (natD v)) ls
-      | ["del", "a", k] =>
-        s!"del {showBool (a.any (fun p => p.1 == natD k))}" :: go (mapDel a (natD k)) b ls
-      | ["del", "b", k] =>
-        s!"del {showBool (b.any (fun p => p.1 == natD k))}" :: go a (mapDel b (natD k)) ls
+      | ["upd", "a", k, v] => go (a.update (natD k) (canon (natD v))) b ls
+      | ["upd", "b", k, v] => go a (b.update (natD k) (canon (natD v))) ls
+      | ["del", "a", k] => s!"del {showBool (a.remove (natD k)).1}" :: go (a.remove (natD k)).2 b ls
+      | ["del", "b", k] => s!"del {showBool (b.remove (natD k)).1}" :: go a (b.remove (natD k)).2 ls
       | ["diff"] =>
-        let ta := build a
-        let tb := build b
-        let eq := (ta.map (MTree.hash hl hc)) == (tb.map (MTree.hash hl hc))
-        s!"d ab {showRanges (diffTrees hl hc ta tb)} | ba {showRanges (diffTrees hl hc tb ta)} | eq {showBool eq} | size {a.length} {b.length}"
+        let eq := (a.root.map (MTree.hash hl hc)) == (b.root.map (MTree.hash hl hc))
+        s!"d ab {showRanges (MT.diff hl hc a b)} | ba {showRanges (MT.diff hl hc b a)} | eq {showBool eq} | size {a.data.length} {b.data.length}"
           :: go a b ls
       | _ => go a b ls
   go a0 b0 body
